@@ -2,7 +2,10 @@
 //!   vh gen    <Cxx> --tier quick|thorough --seed N --out trace.ndjson
 //!   vh replay <Cxx> --in cases.ndjson --out trace.ndjson
 mod util;
+mod c02;
+mod c11;
 mod c17;
+mod linalg2;
 
 use util::Args;
 
@@ -27,6 +30,9 @@ fn main() {
     }
     util::quiet_panics();
     match (mode.as_str(), prop.as_str()) {
+        ("gen", "C02") => c02::generate_c02(&a),
+        ("gen", "C09") => c02::generate_c09(&a),
+        ("gen", "C11") => c11::generate(&a),
         ("gen", "C17") => c17::generate(&a),
         ("replay", "C17") => c17::replay(&a),
         _ => {
